@@ -191,6 +191,9 @@ def check(chk: Check) -> None:
             elif not any(_is_whole(x, ('attr', tok, 'value')) for x in _message_parts(msg)):
                 problems.append('on a path the message carries only a part or a transformation of the offending token\'s text (%s)' % ', '.join(
                     show(x) for x in _message_parts(msg) if om.mentions(x, ('attr', tok, 'value'))))
+            if _used_as_template(msg, ('attr', tok, 'value')):
+                problems.append('the offending token\'s text is part of a format template (`... % args` / `.format(...)` applied to a string that '
+                                'contains it): a `%` or a brace in the token - %name% variables, string literals - is interpreted instead of shown')
             if om.mentions(msg, ('attr', ('attr', tok, 'lexer'), 'lineno')):
                 problems.append('the message reports p.lexer.lineno, the lexer\'s line *after* the offending token: one too many '
                                 'when that token is itself a line break (`1 +<newline>2 2` ...)')
@@ -268,6 +271,17 @@ def check(chk: Check) -> None:
                         ok = True
         chk.require(ok, R2, 'ply.lex.Lexer.token sets tok.lineno before the rule runs', 'smartquery/ply/lex.py',
                     'tok.lineno = self.lineno precedes func(tok)' if ok else 'anchor not found: tok.lineno is not assigned before the rule function is called')
+
+
+def _used_as_template(t, value) -> bool:
+    t = freeze(t)
+    if not isinstance(t, tuple) or not t:
+        return False
+    if t[0] == 'binop' and t[1] == '%' and om.mentions(t[2], value):
+        return True
+    if t[0] == 'call' and isinstance(t[2], tuple) and t[2][:1] == ('attr',) and t[2][2] in ('format', 'format_map') and om.mentions(t[2][1], value):
+        return True
+    return any(_used_as_template(x, value) for x in t if isinstance(x, tuple))
 
 
 def _message_parts(t) -> List[Any]:
